@@ -101,14 +101,38 @@ func runC19(cs *vrt.Case) {
 	r := cs.Rng
 	P := 2 + cs.Idx%5
 	K := 1 + (cs.Idx/5)%4
-	ports := freePorts(r, P)
-	if len(ports) < P {
+	relayed := cs.Idx%4 == 2 // the parties reach each other through a relay that reorders connection establishment
+	nPorts := P
+	if relayed {
+		nPorts = 2 * P
+	}
+	ports := freePorts(r, nPorts)
+	if len(ports) < nPorts {
 		cs.Inconc("could not find free ports")
 		return
 	}
 	addr := func(i int) string { return fmt.Sprintf("127.0.0.1:%d", ports[i]) }
+	leaderAddr := addr(0)
 	desc := map[string]any{"parties": P, "conns": K}
 	cs.SetSample(desc)
+	var relay *c19Relay
+	if relayed {
+		var ra, la []string
+		for i := 0; i < P; i++ {
+			la = append(la, addr(i))
+			ra = append(ra, addr(P+i))
+		}
+		var err error
+		relay, err = newC19Relay(r.Fork(), ra, la)
+		if err != nil {
+			cs.Inconc("relay: " + err.Error())
+			return
+		}
+		defer relay.Close()
+		leaderAddr = ra[0]
+		desc["transport"] = "relay that opens the onward leg of a connection after that of the dialer's next connection"
+		cs.Count("meshes_through_reordering_relay", 1)
+	}
 
 	// hook: log + delay
 	var evMu sync.Mutex
@@ -156,7 +180,7 @@ func runC19(cs *vrt.Case) {
 		if r.Intn(3) == 0 {
 			time.Sleep(time.Duration(r.Intn(2000)) * time.Microsecond)
 		}
-		nets[i], err = p2p.Join(addr(0), addr(i), i, K)
+		nets[i], err = p2p.Join(leaderAddr, addr(i), i, K)
 		if err != nil {
 			if strings.Contains(err.Error(), "address already in use") {
 				cs.Inconc("port taken: " + err.Error())
@@ -416,6 +440,11 @@ func runC19(cs *vrt.Case) {
 	evMu.Unlock()
 	cs.Key(fmt.Sprint(P, K), strings.Join(sig, ","))
 	cs.Count("meshes_formed", 1)
+	if relay != nil {
+		f, sw := relay.stats()
+		cs.Count("relay_connections_forwarded", int64(f))
+		cs.Count("relay_connection_pairs_established_in_swapped_order", int64(sw))
+	}
 	cs.Count("hook_events", int64(nEvents.Load()))
 	cs.Seen("mesh_shapes", fmt.Sprintf("%dx%d", P, K))
 }
